@@ -114,7 +114,7 @@ Top       == Stack[1]
 Quiescent == Stack = <<>>
 Running   == ctl.mode = "run"
 
-Frame(pc, o) == [pc |-> pc, o |-> o, s |-> <<>>, cyc |-> <<>>, tab |-> FALSE, ph |-> "-"]
+Frame(pc, o) == [pc |-> pc, o |-> o, s |-> <<>>, cyc |-> <<>>, tab |-> FALSE, ph |-> "-", uw |-> FALSE]
 
 Allocd(h, o) == h.mem[o] = "alloc"
 IntactIn(h, o) == h.mem[o] = "alloc" /\ h.vinit[o]
@@ -206,7 +206,10 @@ Finalize(g, x) ==
   LET dead == {o \in Obj : x.nd[o] > 0}
   IN [x EXCEPT !.flags = @ \cup (IF x.must \subseteq dead THEN {} ELSE {"C03"}),
                !.must  = {}]
-RetTo(g, x, s) == IF s = <<>> THEN Finalize(g, x) ELSE x
+RetTo(g, x, s) ==
+  IF s = <<>>
+  THEN Finalize(g, IF Stack # <<>> /\ Stack[Len(Stack)].uw THEN [x EXCEPT !.ret = "panic"] ELSE x)
+  ELSE x
 
 Crash(e) ==
   Commit(heap, led, [ob EXCEPT !.ub = @ \cup {e}], [ctl EXCEPT !.mode = "crashed"])
@@ -267,9 +270,20 @@ LC(op, a, b)         == Mark(LedCall(led, op, a, b), ob, Cause(op))
 LR(op, a, b, d, ret) == Mark(LedRet(LC(op, a, b), op, a, b, d, ret), ob, Cause(op))
 
 \* C03/C14 bookkeeping when a public call drops a handle to o (g2 = ledger without it)
+\* C14: "an object that currently has no recorded adoption" is a statement about the calls
+\* made (never adopted, every adoption removed again, or the other end destroyed), so it is
+\* evaluated on the ledger, not on the library's table
+LedEmpty(g, o) == /\ g.recL[o] = 0
+                  /\ \A b \in Obj : g.rec[o][b] = 0 /\ g.rec[b][o] = 0
 DropObs(x, g2, o) ==
   [x EXCEPT !.must = @ \cup MustDie(g2, x, o),
-            !.empty0 = (heap.mem[o] = "alloc" /\ heap.linit[o] /\ Entries(heap, o) = {})]
+            !.empty0 = LedEmpty(g2, o)]
+
+\* C16: cloning a strong handle aborts the process iff the object is already destroyed
+\* (strong is 0 or usize::MAX); evaluated on the state before the call
+CloneFlag(o, ret) ==
+  IF (ret = "abort") # (heap.mem[o] = "alloc" /\ heap.strong[o] \in {0, UNINIT})
+  THEN {"C16"} ELSE {}
 
 \* C05: Weak::upgrade answers Some iff the value has not been (is not being) destroyed
 UpgradeFlag(o, some) ==
@@ -288,9 +302,10 @@ IncKind(o) == IF heap.mem[o] # "alloc" THEN "uaf"
 DoClone(o, op, a, b, x2, base) ==
   CASE IncKind(o) = "ok" ->
          Commit([heap EXCEPT !.strong[o] = @ + 1], LR(op, a, b, NoScript, "ok"),
-                [x2 EXCEPT !.ret = "ok"], [ctl EXCEPT !.stack = base])
+                [x2 EXCEPT !.ret = "ok", !.flags = @ \cup CloneFlag(o, "ok")], [ctl EXCEPT !.stack = base])
     [] IncKind(o) = "abort" ->
-         Commit(heap, led, [x2 EXCEPT !.ret = "abort"], [ctl EXCEPT !.mode = "aborted"])
+         Commit(heap, led, [x2 EXCEPT !.ret = "abort", !.flags = @ \cup CloneFlag(o, "abort")],
+                [ctl EXCEPT !.mode = "aborted"])
     [] OTHER -> Crash(<<"uaf", o>>)
 
 Done(h, op, a, b, d, ret, top, base) ==     \* an atomic call completes
@@ -300,6 +315,7 @@ Done(h, op, a, b, d, ret, top, base) ==     \* an atomic call completes
 OpNew(d, top, base) ==
   /\ \E o \in Obj :
        /\ ~led.made[o] /\ \A p \in Obj : p < o => led.made[p]
+       /\ d = NoScript \/ Cardinality({p \in Obj : led.dtor[p] # NoScript}) < Caps.scripted
        /\ Done([heap EXCEPT !.mem[o] = "alloc", !.strong[o] = 1, !.weak[o] = 1,
                             !.vinit[o] = TRUE, !.linit[o] = TRUE],
                "New", o, 0, d, "ok", top, base)
@@ -308,8 +324,12 @@ OpCloneRoot(o, top, base) ==
   /\ led.rootS[o] > 0 /\ Handles(o) < Caps.strong
   /\ DoClone(o, "CloneRoot", o, 0, ObFor(top, "CloneRoot", o, 0), base)
 
+\* the value of `a` can be named: it is intact, or we are inside its own destructor
+CanOpen(a, top) == \/ Intact(a) /\ ob.nd[a] = 0
+                   \/ ~top /\ Stack # <<>> /\ Top.pc = "value" /\ Top.o = a
+
 OpCloneStored(a, o, top, base) ==
-  /\ Intact(a) /\ ob.nd[a] = 0 /\ led.valS[a][o] > 0 /\ Handles(o) < Caps.strong
+  /\ CanOpen(a, top) /\ led.valS[a][o] > 0 /\ Handles(o) < Caps.strong
   /\ DoClone(o, "CloneStored", a, o, ObFor(top, "CloneStored", a, o), base)
 
 OpDropRoot(o, top, base) ==
@@ -328,7 +348,7 @@ OpTake(a, o, top, base) ==         \* move a handle out of a's value: no library
   /\ Done(heap, "Take", a, o, NoScript, "ok", top, base)
 
 OpDropStored(a, o, top, base) ==
-  /\ Intact(a) /\ ob.nd[a] = 0 /\ led.valS[a][o] > 0
+  /\ CanOpen(a, top) /\ led.valS[a][o] > 0
   /\ Caps.elide \/ led.rec[a][o] < led.valS[a][o]
   /\ LET g2 == LC("DropStored", a, o)
      IN Commit(heap, g2, DropObs([ObFor(top, "DropStored", a, o) EXCEPT !.ret = "unit"], g2, o),
@@ -398,8 +418,7 @@ OpUpgrade(o, top, base) ==
 
 OpUpgradeStored(a, o, top, base) ==
   /\ led.valW[a][o] > 0 /\ Handles(o) < Caps.strong + 1
-  /\ \/ Intact(a) /\ ob.nd[a] = 0
-     \/ ~top /\ Top.o = a                      \* from inside a's own destructor
+  /\ CanOpen(a, top)
   /\ DoUpgrade(o, "UpgradeStored", a, o, top, base)
 
 OpWeakClone(o, top, base) ==
@@ -615,7 +634,7 @@ StepCycleDestroy ==
 
 \* P4
 StepRelease ==
-  /\ Running /\ Stack # <<>> /\ Top.pc = "release"
+  /\ Running /\ Stack # <<>> /\ Top.pc = "release" /\ ~Top.uw
   /\ LET r == ReleaseFold([h |-> heap, nf |-> ob.nf, ub |-> {}], DOMAIN Top.cyc)
      IN IF r.ub # {}
         THEN Commit(r.h, led, [ob EXCEPT !.ub = @ \cup r.ub, !.nf = r.nf], [ctl EXCEPT !.mode = "crashed"])
@@ -635,8 +654,14 @@ StepUninit ==
 
 \* table moved out and dropped, implicit weak released, allocation freed at weak = 0
 \* (src/drop.rs:199-213, 417-435)
+\* unwinding through a teardown: the implicit weak is never released, nothing is freed
+\* (src/drop.rs has no unwind guard): the allocation and, in the plain paths, the table leak
+StepUnwindSkip ==
+  /\ Running /\ Stack # <<>> /\ Top.pc \in {"postvalue", "release"} /\ Top.uw
+  /\ Commit(heap, led, RetTo(led, ob, Pop), [ctl EXCEPT !.stack = Pop])
+
 StepPostValue ==
-  /\ Running /\ Stack # <<>> /\ Top.pc = "postvalue"
+  /\ Running /\ Stack # <<>> /\ Top.pc = "postvalue" /\ ~Top.uw
   /\ LET o == Top.o IN
      IF heap.mem[o] # "alloc" THEN Crash(<<"uaf", o>>)
      ELSE LET h1 == IF Top.tab THEN [heap EXCEPT !.linit[o] = FALSE, !.tbl[o] = FALSE] ELSE heap
@@ -668,14 +693,30 @@ ScriptBase == SetTop([Top EXCEPT !.ph = "fields"])
 \* a script names its call like a trace line does: [op, x, y]; calls on stored handles
 \* act on the value being destroyed
 ScriptCall(sc) ==
-  IF sc.op \in {"UpgradeStored", "CloneStored"}
+  IF sc.op \in {"UpgradeStored", "CloneStored", "DropStored"}
   THEN [op |-> sc.op, a |-> Top.o, b |-> sc.x]
   ELSE [op |-> IF sc.op = "UpgradeWeak" THEN "Upgrade" ELSE sc.op, a |-> sc.x, b |-> sc.y]
 ScriptOp(sc) ==
   LET c == ScriptCall(sc) IN CallOp(c.op, c.a, c.b, NoScript, FALSE, ScriptBase)
 
+\* T::drop panics: every frame on the stack starts unwinding.  What Rust still does on the
+\* way out is modelled by the frames' own (uw) steps; a second panic while unwinding aborts.
+Unwinding == \E i \in 1..Len(Stack) : Stack[i].uw
+StepValuePanic ==
+  /\ Running /\ Stack # <<>> /\ Top.pc = "value" /\ Top.ph = "script"
+  /\ led.dtor[Top.o].op = "Panic"
+  /\ IF \E i \in 2..Len(Stack) : Stack[i].uw
+     THEN Commit(heap, led, [ob EXCEPT !.ret = "abort"], [ctl EXCEPT !.mode = "aborted"])
+     ELSE Commit(heap,
+                 [led EXCEPT !.panicked = @ \cup {o \in Made(led) : ~heap.vinit[o]}],
+                 ob,
+                 [ctl EXCEPT !.stack = [i \in 1..Len(Stack) |->
+                                          IF i = 1 THEN [Stack[i] EXCEPT !.ph = "fields", !.uw = TRUE]
+                                          ELSE [Stack[i] EXCEPT !.uw = TRUE]]])
+
 StepValueScript ==
   /\ Running /\ Stack # <<>> /\ Top.pc = "value" /\ Top.ph = "script"
+  /\ led.dtor[Top.o].op # "Panic"
   /\ LET sc == led.dtor[Top.o] IN
      IF sc.op = "none"
      THEN Commit(heap, led, ob, [ctl EXCEPT !.stack = ScriptBase])
@@ -733,6 +774,7 @@ Call ==
 Micro ==
   \/ StepDrop \/ StepOrphan \/ StepBust \/ StepMark \/ StepCycleDestroy \/ StepRelease
   \/ StepUninit \/ StepPostValue \/ StepValueEnter \/ StepValueScript \/ StepValueFields
+  \/ StepValuePanic \/ StepUnwindSkip
 
 Next == Call \/ Micro
 Spec == Init /\ [][Next]_vars
@@ -778,6 +820,8 @@ C08 == Quiescent /\ ob.ub = {} =>
            Intact(a) /\ ob.nd[a] = 0 /\ ~led.gone[a] => heap.links[a] = TableImplied(a)
 
 C14 == "C14" \notin ob.flags
+
+C16 == "C16" \notin ob.flags
 
 TypeOK ==
   /\ \A o \in Obj : heap.strong[o] >= UNINIT /\ heap.weak[o] >= 0
